@@ -379,4 +379,20 @@ def main():
 
 
 if __name__ == '__main__':
-    main()
+    try:
+        main()
+    except SystemExit:
+        raise
+    except BaseException as e:      # noqa -- a crash of the checker (e.g. the repository no longer parses) is never a verdict about the property
+        traceback.print_exc()
+        prop_ = next((a for a in sys.argv[1:] if not a.startswith('-')), '?')
+        print(f'CHECKER-ERROR property={prop_} the checker could not run: {type(e).__name__}: {str(e)[:200]}')
+        try:        # an evidence file that says so (schema-valid, level other: nothing was proved)
+            ev = next((sys.argv[i + 1] for i, a in enumerate(sys.argv) if a == '--evidence'), os.path.join(VERIF, 'evidence', f'{prop_}.json'))
+            json.dump(dict(property_id=prop_, tier=os.environ.get('VERIF_TIER', 'quick') if os.environ.get('VERIF_TIER') in ('quick', 'thorough') else 'quick', seed=int(os.environ.get('VERIF_SEED', '0') or 0),
+                           level='other', coverage=dict(explanation=f'the checker crashed before generating obligations: {type(e).__name__}: {str(e)[:300]}', evaluations=0, distinct_nontrivial=0,
+                                                        rule='none', samples=['(none: checker crash)']),
+                           assumptions=[], wall_s=0.0, violations=0, exit_status=3), open(ev, 'w'), indent=1)
+        except Exception:
+            pass
+        sys.exit(3)
